@@ -350,6 +350,9 @@ func search(prop, tier string, base uint64, cfg tierCfg, workers int, tmp string
 	}
 	wg.Wait()
 	if fail != "" {
+		if p := os.Getenv("VERIF_DEBUG_OUT"); p != "" {
+			os.WriteFile(p, []byte(fail), 0o644)
+		}
 		fmt.Println("HARNESS-ERROR:", firstLines(fail, 40))
 		return agg, 2
 	}
